@@ -264,7 +264,7 @@ C02_CMUL = [
     # sparse constants finish in seconds; dense ones (MAX, -3, mixed) are a genuine multiplier equivalence and did not finish in 540 s: thorough tier
     (I(64, 2), 'max', [0xffffffffffffffff, 0xffffffffffffffff], 'thorough'), (I(64, 2), 'min', [0, 0x8000000000000000], 'quick'), (I(64, 2), 'p2p1', [1, 1], 'quick'), (I(64, 2), 'three', [3, 0], 'quick'),
     (I(64, 3), 'mix', [0xfffffffffffffffe, 1, 0x7fffffffffffffff], 'thorough'), (I(64, 3), 'neg3', [0xfffffffffffffffd, 0xffffffffffffffff, 0xffffffffffffffff], 'thorough'), (I(32, 4), 'alt', [0xffffffff, 0, 0xffffffff, 0], 'thorough'),
-    (I(64, 3), 'p2s', [0, 1, 0x8000000000000000], 'quick'), (I(16, 4), 'c64', [0xfffe, 0x0001, 0x8000, 0x7fff], 'thorough'), (I(8, 8), 'c64', [0xff, 0, 0x80, 0x7f, 1, 0xfe, 0, 0x80], 'thorough'), (I(64, 1), 'max', [0xffffffffffffffff], 'quick'), (I(64, 1), 'min', [0x8000000000000000], 'quick'),
+    (I(64, 3), 'p2s', [0, 1, 0x8000000000000000], 'thorough'), (I(16, 4), 'c64', [0xfffe, 0x0001, 0x8000, 0x7fff], 'thorough'), (I(8, 8), 'c64', [0xff, 0, 0x80, 0x7f, 1, 0xfe, 0, 0x80], 'thorough'), (I(64, 1), 'max', [0xffffffffffffffff], 'thorough'), (I(64, 1), 'min', [0x8000000000000000], 'quick'),
     (I(64, 2), 'smax', [0xffffffffffffffff, 0x7fffffffffffffff], 'thorough'), (I(32, 2), 'neg1', [0xffffffff, 0xffffffff], 'thorough'),
 ]
 for i, tag, bv, tier in C02_CMUL:
@@ -668,6 +668,17 @@ for i, sg, tag, lo, hi, tier in C20_CONC:
     add(H('C20', f"c20_range_conc_{sg}_{i.tag}_{tag}", 'c20_range', f"{i.bytes + 4}, {T}, {i.digit}, {i.n}, [{', '.join(hex(v) for v in lo)}], [{', '.join(hex(v) for v in hi)}]", tier=tier, cap=1800, inst=i.label, core=False, mem_gb=8,
           funcs=f"{'BUint' if sg == 'u' else 'BInt'} gen_range / Uniform / sample_single(_inclusive) on a type wider than 16 bits",
           bound=f'concrete bounds ({tag}), all RNG streams with at most 2 rejections (3 draws); result inside the range'))
+C20_UNB = [
+    (I(64, 1), 'i', 'r5', [0xfffffffffffffffe], [2]), (I(64, 1), 'u', 'p2p1', [0], [0x100000000]), (I(32, 2), 'u', 'r3', [0xffffffff, 0], [1, 1]), (I(16, 2), 'u', 'p2', [0, 0], [0xffff, 0]),
+    (I(32, 1), 'u', 'r3', [5], [7]), (I(8, 4), 'i', 'r7', [0xfd, 0xff, 0xff, 0xff], [3, 0, 0, 0]),
+]
+for i, sg, tag, lo, hi in C20_UNB:
+    T = i.U if sg == 'u' else i.I
+    for single in (False, True):
+        add(H('C20', f"c20_unbiased_conc_{'single' if single else 'uniform'}_{sg}_{i.tag}_{tag}", 'c20_unbiased_conc',
+              f"{i.bytes + 4}, {T}, {i.digit}, {i.n}, {'true' if single else 'false'}, [{', '.join(hex(v) for v in lo)}], [{', '.join(hex(v) for v in hi)}]", tier='quick', cap=600, inst=i.label, core=False, mem_gb=6,
+              funcs=f"{'BUint' if sg == 'u' else 'BInt'} {'sample_single_inclusive' if single else 'Uniform::sample'}: equal number of accepted RNG words per value, 32/64-bit types",
+              bound=f'concrete bounds ({tag}: small or sparse range sizes), all pairs of offsets, all word positions inside a block (relational 2-run query)'))
 for i, tier in ((I(8, 1), 'quick'), (I(8, 3), 'quick'), (I(64, 2), 'quick'), (I(16, 2), 'thorough'), (I(32, 3), 'thorough'), (I(64, 1), 'thorough'), (I(64, 3), 'thorough')):
     add(H('C20', f"c20_fill_{i.tag}", 'c20_fill', f"{3 * i.bytes + 3}, {i.U}, {i.I}, {i.digit}, {i.n}", tier=tier, cap=1800, inst=i.label, mem_gb=6,
           funcs='Standard (rng.gen) for BUint/BInt, Fill / try_fill_slice for slices of length 0..=3', bound='all RNG streams, symbolic byte index'))
@@ -822,7 +833,7 @@ OUTSIDE = {
     'C16': ['decimal parsing / printing across configurations', 'mul/div/pow equivalence above 16 bits outside the boundary alphabet'],
     'C17': ['Mul/Div/Rem operator forms above 8 bits (quick tier)'],
     'C18': ['the value the Newton iteration of sqrt / cbrt / nth_root converges to (only its first step is decided) and the u128 roots of num-integer', 'Integer arithmetic above 8 bits (quick tier)'],
-    'C20': ['range sampling above 8 bits (quick) / 16 bits (thorough)', 'RNG streams with more than 2 consecutive rejections', 'statistical quality of the underlying RNG'],
+    'C20': ['range sampling with symbolic bounds above 8 bits (quick) / 16 bits (thorough); with concrete bounds: membership up to 192 bits, unbiasedness for small / sparse range sizes at 32 and 64 bits', 'RNG streams with more than 2 consecutive rejections', 'statistical quality of the underlying RNG'],
 }
 ASSUME = {
     'C01': ['from_digits/from_bits/digits()/to_bits are the identity on the digit array (decided under C13)'],
